@@ -223,7 +223,19 @@ class FsRun:
                     handler_hook(self, e)
 
         self.emitter_class = Em
-        self.observer = M["api"].BaseObserver(Em, timeout=self.poll_interval)
+        emitter_factory = Em
+        if self.backend == "polling":
+            import functools
+
+            def det_stat(path):
+                # tmpfs timestamps have jiffy granularity: whether two changes a few microseconds apart get different
+                # mtimes depends on the real clock.  The polling runs on the real tree therefore see a constant mtime
+                # (modifications are still detected through the size); time-dependent behaviour is C10's business (VFS).
+                st = os.stat(path)
+                return os.stat_result(tuple(st[:7]) + (0, 0, 0))
+
+            emitter_factory = functools.partial(Em, stat=det_stat, listdir=os.scandir)
+        self.observer = M["api"].BaseObserver(emitter_factory, timeout=self.poll_interval)
         self.H = H
         self.handlers = [H(0)]
         return self.observer
